@@ -87,7 +87,11 @@ PATH_KINDS = (
     + [dict(kind='custom', drift=0.4)]
     + [dict(kind=k, drift=0.7) for k in ('array', 'list')]
     + [dict(kind='array', drift=0.7, ints=True), dict(kind='list', drift=0.7, ints=True)]
+    # whole-Hz paths held as UNSIGNED integers, drifting down as well as up (differences of unsigned values wrap)
+    + [dict(kind='array', drift=-2.7, ints=True, dtype='uint64'), dict(kind='array', drift=2.7, ints=True, dtype='uint64')]
     + [dict(kind='float', drift=0.0), dict(kind='int', drift=0.0)]
+    # scalars in the other numeric types a caller may hold them in
+    + [dict(kind='int', drift=0.0, np='int64'), dict(kind='int', drift=0.0, np='uint64')]
 )
 T_KINDS = (
     [dict(kind='constant_t_profile'), dict(kind='sine_t_profile')]
@@ -97,6 +101,7 @@ T_KINDS = (
     + [dict(kind='periodic_gaussian_t_profile', direction='down', pnum=3, jitter=False, deep=True)]
     + [dict(kind='periodic_gaussian_t_profile', direction='up', pnum=pn, jitter=False, negphase=True) for pn in (1, 3)]
     + [dict(kind='custom'), dict(kind='array'), dict(kind='list'), dict(kind='float'), dict(kind='int')]
+    + [dict(kind='float', np='float32'), dict(kind='int', np='uint8'), dict(kind='float', np='0d')]
 )
 WIDTHS = [0.3, 1.0, 2.5]
 F_KINDS = (
@@ -214,13 +219,13 @@ def concretise(case, fs, ts):
         jit = _rng(seed, 11).uniform(-0.4, 0.4, 16)
         vals = [float(f0 + d * df * i + jit[i] * df) for i in range(rows + p.get('extra', 0))]
         if p.get('ints'):
-            ps = dict(kind=k, values=[int(round(v)) for v in vals], dtype='int64')
+            ps = dict(kind=k, values=[int(round(v)) for v in vals], dtype=p.get('dtype', 'int64'))
         else:
             ps = dict(kind=k, values=vals)
     elif k == 'float':
         ps = dict(kind='float', value=float(f0))
     elif k == 'int':
-        ps = dict(kind='int', value=int(round(f0)))
+        ps = dict(kind='int', value=int(round(f0)), np=p.get('np'))
     else:
         raise KeyError(k)
 
@@ -245,9 +250,9 @@ def concretise(case, fs, ts):
     elif k in ('array', 'list'):
         tsp = dict(kind=k, values=[float(v) for v in 0.5 + _rng(seed, 12).uniform(0, 2, 16)[:m + t.get('extra', 0)]])
     elif k == 'float':
-        tsp = dict(kind='float', value=1.7)
+        tsp = dict(kind='float', value=1.75 if t.get('np') else 1.7, np=t.get('np'))
     elif k == 'int':
-        tsp = dict(kind='int', value=2)
+        tsp = dict(kind='int', value=2, np=t.get('np'))
     else:
         raise KeyError(k)
 
